@@ -458,7 +458,13 @@ class ScriptSession:
             when = (now // 1024 + a["hdr_date"]) * 1024
             a = dict(a, hdr=email.utils.format_datetime(simloop.EPOCH + _dt.timedelta(seconds=when // 1024), usegmt=True))
         self.facts.append(["http", now, a.get("hdr"), a.get("hdr_name", "Retry-After")])
-        return make_resp(a)
+        r = make_resp(a)
+        if a["status"] < 400:
+            if r._payload is None:
+                r._payload = {}                     # a readable JSON answer
+            if self.body_exc is not None:
+                r.body_exc = make_exc(self.body_exc)
+        return r
 
     async def close(self) -> None:
         self.closed = True
@@ -553,8 +559,12 @@ def gen_attempt(rng: random.Random, backoff_hint: int | None) -> dict:
     if r < 0.55:
         st = rng.choice(TRANSIENT_STATUS)
         a = {"kind": "http", "lat": lat, "status": st, "payload": rng.choice(["status", "text", "empty"])}
-        if st != 429 and rng.random() < 0.15:     # Retry-After on 5xx/403: ignored by the code
-            a["hdr"] = str(rng.choice(RA_POOL))
+        if st != 429 and rng.random() < 0.15:     # Retry-After on 5xx/403: ignored by the code (finding F7)
+            if rng.random() < 0.7:
+                a["hdr"] = str(rng.choice(RA_POOL))
+            else:
+                a["payload"] = "status"
+                a["det"] = rng.choice(RA_POOL)
         return a
     if r < 0.68:
         return {"kind": "http", "lat": lat, "status": rng.choice(FATAL_4XX + [401]), "payload": rng.choice(["status", "text", "empty"])}
@@ -563,6 +573,22 @@ def gen_attempt(rng: random.Random, backoff_hint: int | None) -> dict:
     if r < 0.95:
         return {"kind": "exc", "lat": lat, "exc": rng.choice(EXCS[:6] + EXCS[:6] + EXCS)}
     return {"kind": "exc", "lat": lat, "exc": rng.choice(EXCS[6:])}
+
+
+def _garble_body(rng: random.Random, a: dict) -> dict:
+    """error bodies that are not what the client expects (finding F6): non-dict JSON, unusable details"""
+    if a["kind"] != "http" or a["status"] < 400:
+        return a
+    r = rng.random()
+    if r < 0.03:
+        a = dict(a, payload="other-value", body_value=rng.choice([[1], True, 5, ["rate limited"], 2.5]))
+        a.pop("det", None)
+    elif r < 0.05 and a["status"] == 429:
+        a = dict(a, payload="bad-details", details_value=rng.choice(["see the docs", ["x"], 7]))
+        a.pop("det", None)
+    elif r < 0.08 and a["status"] == 429 and a.get("hdr") in (None, "") and a.get("hdr_date") is None:
+        a = dict(a, payload="status", det=rng.choice(["soon", "Infinity", "NaN", [5], "2.5", "3"]))
+    return a
 
 
 def gen_request(rng: random.Random) -> dict:
@@ -576,9 +602,17 @@ def gen_request(rng: random.Random) -> dict:
         a = gen_attempt(rng, hint)
         if mode < 0.35 and a["kind"] == "http" and a["status"] not in TRANSIENT_STATUS:
             a = {"kind": "http", "lat": a["lat"], "status": rng.choice(TRANSIENT_STATUS), "payload": "empty"}
-        script.append(a)
-    return {"part": "request", "backoffs": bo, "enforce": rng.random() < 0.25, "script": script,
+        script.append(_garble_body(rng, a))
+    case = {"part": "request", "backoffs": bo, "enforce": rng.random() < 0.25, "script": script,
             "pause": rng.choice([0, 1, 7, 1024])}
+    if rng.random() < 0.06:          # through api.get: the body of the final answer is read outside the retry loop
+        case["via"] = "get"
+        case["script"] = [a if (a["kind"] == "http" and a["status"] != 401) or
+                          (a["kind"] == "exc" and a["exc"] in EXCS[:1] + EXCS[3:6] + ["ClientOSError"])
+                          else {"kind": "http", "lat": a["lat"], "status": 500, "payload": "empty"} for a in script]
+        if rng.random() < 0.6:
+            case["body_exc"] = rng.choice(["ServerDisconnectedError", "ClientOSError", "ClientConnectionError"])
+    return case
 
 
 async def _one_request(env: dict, case: dict) -> dict:
@@ -829,7 +863,7 @@ def gen_throttle(rng: random.Random) -> dict:
             body = "success" if r < 0.33 else "error" if r < 0.83 else "foreign" if r < 0.92 else "base"
             cycles.append({"body": body, "ran": rng.random() < 0.1, "dur": rng.choice([0, 0, 2, 64, 512]),
                            "wake1": rng.choice([None, None, None, 0, 1, 63, 500, 1025, 4000]),
-                           "wake2": rng.choice([None, None, None, None, 1, 63, 501, 1025, 2047, 4001]),
+                           "wake2": rng.choice([None, None, None, None, 0, 1, 63, 501, 1025, 2047, 4001]),
                            "gap": rng.choice([0, 0, 1, 64, 1000, 1024, 2048, 3000, 6000])})
         objs.append(cycles)
     return {"part": "throttle", "delays": cfg, "objects": objs, "errors": rng.choice(["Exception", "Exception", "ValueError"])}
@@ -939,7 +973,11 @@ class _NotAnException(BaseException):
 async def _one_throttle(env: dict, case: dict) -> dict:
     # every object gets its own configuration object when it is a generator-like one (they are
     # re-iterable, but the item counter is per object)
-    tasks = [asyncio.ensure_future(_one_object(env, build_seq(case["delays"]), case, cyc)) for cyc in case["objects"]]
+    # one shared settings object for all objects (as `settings.queueing.error_delays` is) unless it is one of the
+    # counting re-iterables, whose item counter is per object
+    shared = build_seq(case["delays"]) if case["delays"]["kind"] not in ("reiter", "inf") else None
+    tasks = [asyncio.ensure_future(_one_object(env, shared if shared is not None else build_seq(case["delays"]), case, cyc))
+             for cyc in case["objects"]]
     res = await asyncio.gather(*tasks)
     return {"objects": res}
 
@@ -977,7 +1015,8 @@ def oracle_throttle(case: dict, o: dict) -> list[tuple[str, dict]]:
     out = []
     cfg = case["delays"]
     if cfg["kind"] == "scalar":
-        return out
+        # the property quantifies over scalar configurations too: a scalar d means the one-item list [d]
+        cfg = {"kind": "list", "ticks": list(cfg["ticks"])}
     k = 0
     deadline = None
     for c, r in zip(o["cycles"], o["outs"]):
@@ -995,6 +1034,11 @@ def oracle_throttle(case: dict, o: dict) -> list[tuple[str, dict]]:
         if body == "base" and r["escaped"] != "base-exception":
             out.append(("a BaseException/cancellation was swallowed by throttled()", {"site": "throttled", "shape": "base-swallowed"}))
         if body == "error" and r["shouldRun"]:
+            if r["escaped"] == "type-error" and case["delays"]["kind"] == "scalar":
+                out.append(("with a scalar error_delays the first error makes iter(delays) raise TypeError out of throttled(): "
+                            "nothing is contained (the escape stops the operator)",
+                            {"site": "throttlers.throttled", "shape": "scalar error_delays -> TypeError escapes throttled()"}))
+                return out
             if r["escaped"] != "none":
                 out.append((f"an error escaped throttled(): {r['escaped']}", {"site": "throttled", "shape": "error-escaped"}))
             vals = seq_prefix(cfg, k + 1) or []
@@ -1557,9 +1601,157 @@ def key_vault(case: dict, obs: dict) -> tuple[str, bool]:
 
 
 # =============================================================================================
+# part C — containment across objects: the REAL queueing.watcher/worker + the REAL process_resource_event
+# (oracle only: no Lean model above throttled())
+# =============================================================================================
+def gen_contain(rng: random.Random) -> dict:
+    n = rng.choice([2, 2, 3, 4])
+    objs = []
+    for i in range(n):
+        r = rng.random()
+        kind = "good" if i == n - 1 or r < 0.45 else "bad-index" if r < 0.72 else "bad-event"
+        objs.append({"kind": kind, "events": sorted(rng.sample([1024, 2048, 3000, 5120, 9000, 20000], rng.choice([0, 1, 2])))})
+    if all(o["kind"] == "good" for o in objs) and rng.random() < 0.8:
+        objs[0]["kind"] = rng.choice(["bad-index", "bad-event"])
+    r = rng.random()
+    delays = {"kind": "list", "ticks": [rng.choice([1024, 61440, 614400])] * rng.choice([1, 2])} if r < 0.7 else \
+        {"kind": "empty", "ticks": []} if r < 0.8 else {"kind": "scalar", "ticks": [rng.choice([1024, 5120])], "ints": True}
+    with_index = rng.random() < 0.6
+    # NB: worker_limit is generated without index handlers only: with an index handler and fewer slots than listed
+    # objects the first workers wait for the others' toggles and start-up dead-locks even with no error at all
+    # (not this property's clause; reported to C17)
+    return {"part": "contain", "objects": objs, "delays": delays, "with_index": with_index,
+            "worker_limit": None if with_index else rng.choice([None, None, 1, 2])}
+
+
+async def _one_contain(env: dict, case: dict) -> dict:
+    import functools
+    import kopf
+    from kopf._cogs.aiokits import aiotoggles
+    from kopf._cogs.clients import watching
+    from kopf._cogs.structs import references
+    from kopf._core.actions import lifecycles
+    from kopf._core.reactor import inventory, processing, queueing
+    configuration, ephemera, indexing, registries = env["configuration"], env["ephemera"], env["indexing"], env["registries"]
+    loop = asyncio.get_running_loop()
+    t0 = loop.time()
+    handled: list[list] = []
+    registry = registries.OperatorRegistry()
+    res = references.Resource("example.com", "v1", "things", namespaced=True, kind="Thing", singular="thing",
+                              shortcuts=[], categories=[], subresources=[], verbs=["list", "watch", "patch"], preferred=True)
+    if case["with_index"]:
+        @kopf.index("example.com", "v1", "things", registry=registry, when=lambda spec, **_: spec["idx"] == "ok")
+        async def idx(**_: Any) -> int:      # async: no executor thread under the virtual clock
+            return 1
+
+    @kopf.on.event("example.com", "v1", "things", registry=registry, when=lambda spec, **_: spec["ev"] == "ok")
+    async def ev(name: str, **_: Any) -> None:
+        handled.append([name, tk(loop.time() - t0)])
+
+    settings = configuration.OperatorSettings()
+    settings.queueing.error_delays = build_seq(case["delays"])
+    settings.queueing.worker_limit = case["worker_limit"]
+    settings.queueing.idle_timeout = 5
+    settings.posting.enabled = False
+    settings.persistence.consistency_timeout = 0
+    indexers = indexing.OperatorIndexers()
+    indexers.ensure(registry._indexing.get_all_handlers())
+    memories = inventory.ResourceMemories()
+    operator_indexed = aiotoggles.ToggleSet(all)
+    # as the orchestrator does: a kind toggle only for resources that have index handlers
+    resource_indexed = await operator_indexed.make_toggle(name="things") if case["with_index"] else None
+
+    def body(i: int, o: dict, rv: int) -> dict:
+        spec = {"idx": "ok", "ev": "ok", "n": rv}
+        if o["kind"] == "bad-index" and case["with_index"]:
+            del spec["idx"]            # the index handler's when= raises KeyError
+        if o["kind"] == "bad-event" or (o["kind"] == "bad-index" and not case["with_index"]):
+            del spec["ev"]             # the event handler's when= raises KeyError
+        return {"apiVersion": "example.com/v1", "kind": "Thing", "spec": spec,
+                "metadata": {"name": f"o{i}", "namespace": "ns", "uid": f"u{i}", "resourceVersion": str(rv)}}
+
+    delivered: list[list] = []
+
+    async def stream(**_: Any) -> Any:
+        for i, o in enumerate(case["objects"]):
+            delivered.append([f"o{i}", tk(loop.time() - t0)])
+            yield {"type": None, "object": body(i, o, 1)}
+        yield watching.Bookmark.LISTED
+        later = sorted((t, i) for i, o in enumerate(case["objects"]) for t in o["events"])
+        rv = 1
+        for t, i in later:
+            await asyncio.sleep(max(0.0, t0 + sec(t) - loop.time()))
+            rv += 1
+            delivered.append([f"o{i}", tk(loop.time() - t0)])
+            yield {"type": "MODIFIED", "object": body(i, case["objects"][i], rv)}
+        await asyncio.Event().wait()
+
+    processor = functools.partial(processing.process_resource_event, lifecycle=lifecycles.all_at_once, indexers=indexers,
+                                  registry=registry, settings=settings, memories=memories, memobase=ephemera.Memo(),
+                                  resource=res, event_queue=asyncio.Queue())
+    orig = watching.infinite_watch
+    watching.infinite_watch = stream
+    died = None
+    try:
+        w = asyncio.create_task(queueing.watcher(namespace=None, settings=settings, resource=res, processor=processor,
+                                                 operator_indexed=operator_indexed, resource_indexed=resource_indexed))
+        await asyncio.wait([w], timeout=sec(40000))
+        if w.done() and not w.cancelled() and w.exception() is not None:
+            died = type(w.exception()).__name__ + ": " + repr(w.exception().__cause__)[:80]
+        w.cancel()
+        await asyncio.gather(w, return_exceptions=True)
+    finally:
+        watching.infinite_watch = orig
+    return {"handled": handled, "delivered": delivered, "died": died, "gate_on": operator_indexed.is_on()}
+
+
+CONTAIN_SIG = {
+    "scalar": {"site": "throttlers.throttled", "shape": "scalar error_delays -> TypeError escapes throttled()"},
+    "gate": {"site": "processing.process_resource_event", "shape": "index-readiness toggle not dropped after a swallowed/skipped cycle -> all objects wait"},
+    "limit": {"site": "queueing.watcher/throttlers.throttled", "shape": "worker_limit: an object pausing in throttled() keeps its worker slot, other objects wait"},
+}
+
+
+def oracle_contain(case: dict, obs: dict) -> list[tuple[str, dict]]:
+    """'pauses only that object … does not stop the operator or delay other objects': every event of a
+    healthy object is handled when it is delivered (nothing in these runs takes time), whatever happens to
+    the failing objects; the watcher stays alive."""
+    out = []
+    bad = [i for i, o in enumerate(case["objects"]) if o["kind"] != "good"]
+    cause = None
+    if bad:
+        cause = "scalar" if case["delays"]["kind"] == "scalar" else \
+            "gate" if case["with_index"] and any(case["objects"][i]["kind"] == "bad-index" for i in bad) else \
+            "limit" if case["worker_limit"] is not None else None
+    if obs["died"]:
+        out.append((f"the watcher (hence the operator) stopped: {obs['died']}",
+                    CONTAIN_SIG["scalar"] if cause == "scalar" else {"site": "queueing.watcher", "shape": "operator-stopped"}))
+        return out
+    good = {f"o{i}" for i, o in enumerate(case["objects"]) if o["kind"] == "good"}
+    todo = [d for d in obs["delivered"] if d[0] in good]
+    runs = list(obs["handled"])
+    for name, t in todo:
+        hit = next((h for h in runs if h[0] == name and h[1] >= t), None)
+        if hit is not None:
+            runs.remove(hit)
+        if hit is None or hit[1] - t > 64:
+            late = "never" if hit is None else f"{hit[1] - t} ticks late"
+            sig = CONTAIN_SIG[cause] if cause in ("gate", "limit") else {"site": "processing", "shape": "healthy-object-delayed"}
+            out.append((f"the event of healthy object {name} delivered at {t} was handled {late} while object(s) "
+                        f"{['o%d' % i for i in bad]} were failing", sig))
+            break
+    return out
+
+
+def key_contain(case: dict, obs: dict) -> tuple[str, bool]:
+    return json.dumps([[o["kind"], len(o["events"])] for o in case["objects"]] + [case["delays"]["kind"], case["with_index"],
+                      case["worker_limit"], bool(obs["died"]), len(obs["handled"])]), any(o["kind"] != "good" for o in case["objects"])
+
+
+# =============================================================================================
 # running cases (in-process or in a pool of shard workers)
 # =============================================================================================
-GEN = {"request": gen_request, "throttle": gen_throttle, "vault": gen_vault}
+GEN = {"request": gen_request, "throttle": gen_throttle, "vault": gen_vault, "contain": gen_contain}
 
 
 def _env() -> dict:
@@ -1589,6 +1781,8 @@ def run_cases(cases: list[dict], wall_limit: float = 900.0) -> list[dict]:
                 out.append(await _one_throttle(env, case))
             elif case["part"] == "vault":
                 out.append(await _one_vault(env, case))
+            elif case["part"] == "contain":
+                out.append(await _one_contain(env, case))
             else:
                 raise ValueError(f"unknown part {case['part']!r}")
 
@@ -1604,6 +1798,8 @@ def judge(case: dict, obs: dict) -> list[tuple[str, dict]]:
         for o in obs["objects"]:
             fails += oracle_throttle(case, o)
         return fails
+    if case["part"] == "contain":
+        return oracle_contain(case, obs)
     return oracle_vault(case, obs)
 
 
@@ -1626,6 +1822,8 @@ def lean_requests(case: dict, obs: dict) -> list[list]:
             reqs.append(["C12.product", seq_to_lean(case["delays"]),
                          [{"obj": k, "at": t, "in": c} for t, k, c, _ in product_events(case, obs)]])
         return reqs
+    if case["part"] == "contain":
+        return []                       # oracle only
     return [vault_to_lean(case, obs)]
 
 
@@ -1653,6 +1851,8 @@ def tie_compare(case: dict, obs: dict, answers: list[Any]) -> list[tuple[str, An
                 res.append(("product run of all objects on one clock", [[e[1] for e in evs], a], [[x[0] for x in m], b]))
             else:
                 res.append(("product run of all objects on one clock", "ok", m))
+    elif case["part"] == "contain":
+        pass
     else:
         m = models[0]
         a, b = vault_compare(case, obs, m)
@@ -1668,6 +1868,8 @@ def case_key(case: dict, obs: dict) -> tuple[str, bool]:
     if case["part"] == "throttle":
         keys = [key_throttle(case, o) for o in obs["objects"]]
         return json.dumps([k for k, _ in keys]), any(nt for _, nt in keys)
+    if case["part"] == "contain":
+        return key_contain(case, obs)
     return key_vault(case, obs)
 
 
@@ -1685,7 +1887,15 @@ def histogram(case: dict, obs: dict, hist: dict) -> None:
             c("request.fault", a["status"] if a["kind"] == "http" else a["exc"])
             if a["kind"] == "http" and a["status"] == 429:
                 kind = "http-date" if a.get("hdr_date") is not None else (classify_hdr(a.get("hdr"), 0) or ["none"])[0]
+                if a.get("hdr_name", "Retry-After") != "Retry-After":
+                    kind += "(other spelling)"
+                if kind == "secs" and float(a["hdr"]) < 0:
+                    kind = "secs(negative)"
                 c("request.retry_after", kind + ("+details" if a.get("det") else ""))
+            if a["kind"] == "http" and a["status"] >= 400:
+                c("request.body", a.get("payload", "empty") + ("+unusable-details" if det_class(a.get("det"))[1] else ""))
+        if case.get("via") == "get":
+            c("request.via_get", "body-read-fails" if case.get("body_exc") else "body-ok")
     elif case["part"] == "throttle":
         c("throttle.delays", case["delays"]["kind"])
         c("throttle.objects", len(case["objects"]))
@@ -1697,6 +1907,13 @@ def histogram(case: dict, obs: dict, hist: dict) -> None:
                 c("throttle.escaped", r["escaped"])
                 c("throttle.activated", r["activated"])
                 c("throttle.interrupted", r["st"]["until"] is not None)
+    elif case["part"] == "contain":
+        c("contain.objects", "/".join(sorted(o["kind"] for o in case["objects"])))
+        c("contain.delays", case["delays"]["kind"])
+        c("contain.worker_limit", case["worker_limit"])
+        c("contain.with_index", case["with_index"])
+        c("contain.watcher_died", bool(obs["died"]))
+        c("contain.handled", len(obs["handled"]))
     else:
         c("vault.requesters", len(case["reqs"]))
         c("vault.keys", len(case["keys"]))
@@ -1796,6 +2013,8 @@ def _brief(case: dict, obs: dict) -> Any:
         return {k: obs[k] for k in ("t0", "times", "outcome", "fin", "exc", "status")}
     if case["part"] == "throttle":
         return [o["outs"] for o in obs["objects"]]
+    if case["part"] == "contain":
+        return obs
     return {"labels": [[l["label"], l["effect"], l["t"]] for l in obs["labels"]][:200], "results": obs["results"],
             "stuck": obs["stuck"]}
 
